@@ -48,7 +48,9 @@ def events_of(os_t, *ops):
     return [e for e in os_t.events if e["op"] in ops]
 
 
-def h_write_file(faults: bool):
+def h_write_file(faults: bool, via_json: bool = False):
+    """via_json: enter through LocalStorageBackend.write_json (metadata files are written through it) - the same durability
+    obligations must hold for the write it delegates to, whatever arguments it passes along."""
     def harness(h: H):
         c = h.ctx
         os_t = OsTheory(h, fault_classes=["OSError"] if faults else [], max_faults=1)
@@ -64,7 +66,13 @@ def h_write_file(faults: bool):
         h.reg.contracts["disk_utils:estimate_write_size"] = lambda I, fv, a, k: SInt(I.ctx.fresh_int("est"))
         h.reg.contracts["integrity:IntegrityChecker.compute_checksum"] = lambda I, fv, a, k: SStr(I.ctx.fresh_str("sha"))
         content = h.bytes("content")
-        out, val = h.run(f"{SB}:LocalStorageBackend.write_file", [be, h.str("path"), content])
+        if via_json:
+            js = z3.String("json_text")
+            h.reg.modfuncs["json.dumps"] = lambda I, a, k: SStr(js)
+            content = SBytes(z3.Function("utf8.encode", z3.StringSort(), z3.StringSort())(js))
+            out, val = h.run(f"{SB}:LocalStorageBackend.write_json", [be, h.str("path"), PDict({})])
+        else:
+            out, val = h.run(f"{SB}:LocalStorageBackend.write_file", [be, h.str("path"), content])
         ev = os_t.events
         mk = events_of(os_t, "mkstemp")
         wr = events_of(os_t, "os.write")
@@ -135,6 +143,22 @@ try:
     except ValueError:
         bad.append(("missing write / file fsync / rename", kinds))
     if open(os.path.join(root, "metadata/x.json"), "rb").read() != b"hello": bad.append("content")
+    # the same through write_json (how metadata files are written)
+    trace2 = []
+    def w_fsync2(fd):
+        try: kind = "dir" if os.path.isdir("/proc/self/fd/%d" % fd) else "file"
+        except Exception: kind = "file"
+        trace2.append("fsync-" + kind); return real["fsync"](fd)
+    def w_replace2(a, b): trace2.append("replace"); return real["replace"](a, b)
+    os.fsync, os.replace = w_fsync2, w_replace2
+    try:
+        be.write_json("metadata/y.json", {"k": 1})
+    finally:
+        os.fsync, os.replace = real["fsync"], real["replace"]
+    if "replace" not in trace2 or "fsync-dir" not in trace2[trace2.index("replace"):]:
+        bad.append(("write_json: no directory fsync after the rename", trace2))
+    if "fsync-file" not in trace2[:trace2.index("replace")] if "replace" in trace2 else True:
+        bad.append(("write_json: no file fsync before the rename", trace2))
 finally:
     shutil.rmtree(root, ignore_errors=True)
 print("replay write_file trace ->", bad or "write, fsync(file), rename, fsync(dir)")
@@ -144,6 +168,7 @@ sys.exit(1 if bad else 0)
 
 register(Unit(P, "DURABLE-WRITE/write_file", h_write_file(False), functions=[f"{SB}:LocalStorageBackend.write_file"], replay=_replay_write_file))
 register(Unit(P, "DURABLE-WRITE/write_file-faults", h_write_file(True), functions=[f"{SB}:LocalStorageBackend.write_file"], replay=_replay_write_file))
+register(Unit(P, "DURABLE-WRITE/write_json", h_write_file(False, via_json=True), functions=[f"{SB}:LocalStorageBackend.write_json", f"{SB}:LocalStorageBackend.write_file"], replay=_replay_write_file))
 
 
 # =================================================================================== DataFileWriter
@@ -263,3 +288,10 @@ _HLP.register_under("C16", ["HELPER/validate_data_files", "HELPER/validate_file_
 
 from contracts import lemmas as _L  # noqa: E402
 register(Unit(P, "LEMMA/POWER-LOSS", _L.h_powerloss, functions=[], replay=_replay_writer, uses=_L.POWER_USES))
+
+
+# table creation is a pointer advance too: the first metadata file is written (durably, units above) BEFORE the pointer names it
+from contracts import C10_hint as _c10i  # noqa: E402
+for _cas in (False, True):
+    register(Unit(P, f"ORDER-INIT/initialize_table-{'cas' if _cas else 'local'}", _c10i.h_initialize_table(_cas),
+                  functions=[f"{_c10i.MM}:MetadataManager.initialize_table"], replay=_c10i._replay_init if hasattr(_c10i, "_replay_init") else None))
